@@ -79,10 +79,24 @@ def cases(tier, seed):
                             "name": f"null rows constant + spec ignores them:_ema_grouped_timed/{dt}/N=3,G=2/mask={mk}/first={first}"})
     for c in NB.cases(tier):
         out.append(c)
+    # the group listing (.groups, key counts): rows with a null key are in no list and shift nothing (symbolic codes, null rows anywhere)
+    for rep, lay in (("contiguous", None), ("chunked", [2, 2])):
+        for order in ([0, 1], [1, 0]):
+            c = {"views": True, "kind": "views", "N": 4, "G": 2, "rep": rep, "label_values": order,
+                 "name": f"null-key rows are in no group list:GroupBy.groups/{rep}/labels {order}/N=4"}
+            if lay:
+                c["lengths"] = lay
+            out.append(c)
     return out
 
 
 def run_case(E, case):
+    if case.get("views"):
+        from . import c02
+        r = c02.run_views(E, case)
+        for cand in r.get("candidates", []):
+            cand["signature"] = PROP + cand["signature"][3:]
+        return r
     if case.get("ema") == "grouped":
         return EMA.run_grouped(E, case, PROP)
     if case.get("ema") == "timed":
@@ -93,6 +107,9 @@ def run_case(E, case):
 
 
 def replay(case, inputs, cand=None):
+    if case.get("views"):
+        from . import c02
+        return c02.replay_views(case, inputs)
     if case.get("ema"):
         return EMA.replay(case, inputs, cand)
     if case.get("nearby"):
